@@ -1,11 +1,12 @@
 #!/bin/bash
 # usage: seed_all.sh [ids...]  -- every seeded change under /verif/seeded applied (in a scratch worktree) in turn, its property's quick check run.
-cd /verif
-OUT=/verif/seeded/RESULTS.txt
+ROOT=$(cd "$(dirname "$0")/.." && pwd)
+cd $ROOT
+OUT=${SEED_RESULTS:-$ROOT/seeded/RESULTS.txt}
 ids=${@:-$(ls seeded | grep -E '^C[0-9]+-')}
 [ $# -eq 0 ] && : > $OUT
 for id in $ids; do
   prop=${id%%-*}
-  res=$(harness/seed_run.sh /verif/seeded/$id/patch.diff $prop 2>&1 | head -4 | tr '\n' '|')
+  res=$(harness/seed_run.sh $ROOT/seeded/$id/patch.diff $prop 2>&1 | head -4 | tr '\n' '|')
   echo "$id: $res" | tee -a $OUT
 done
